@@ -64,10 +64,20 @@ def statFuel : Nat := 48
 /-- Does some entry lie strictly below `p`? -/
 def hasChild (fs : FS) (p : Path) : Bool := fs.any (fun e => decide (p <+: e.1 ∧ e.1 ≠ p))
 
-/-- Names of the entries directly inside `d`, in directory order (`os.ReadDir` sorts by name; the
-    oracle sorts, the theorems do not depend on the order). -/
+/-- Names bound directly inside `d`, in list order, possibly with repetitions (shadowed bindings). -/
+def rawNames (fs : FS) (d : Path) : List Comp :=
+  fs.filterMap (fun e => if e.1.length = d.length + 1 ∧ d <+: e.1 then some (e.1.getLast?.getD []) else none)
+
+/-- Keep the first occurrence of every name. -/
+def dedup : List Comp → List Comp
+  | [] => []
+  | c :: cs => c :: (dedup cs).filter (fun x => decide (x ≠ c))
+
+/-- The entries directly inside `d` (`os.ReadDir`): every name once, with the node `lookup` gives it
+    (the first binding of a path is the one that exists), in list order — `os.ReadDir` sorts by name;
+    the oracle is handed a sorted tree, the theorems do not depend on the order. -/
 def children (fs : FS) (d : Path) : List (Comp × Node) :=
-  fs.filterMap (fun e => if e.1.length = d.length + 1 ∧ d <+: e.1 then some (e.1.getLast?.getD [], e.2) else none)
+  (dedup (rawNames fs d)).filterMap (fun n => (lookup fs (d ++ [n])).map (fun nd => (n, nd)))
 
 def parentErr (fs : FS) (p : Path) : Err :=
   match p with
@@ -346,6 +356,90 @@ theorem runSeq_outside (root : Path) (ops : List (FSOp × Bool)) (fs : FS) (x : 
     (hops : ∀ o ∈ ops, ∀ q ∈ o.1.paths, root <+: q) (hx : ¬ root <+: x) :
     lookup (runSeq fs ops).2 x = lookup fs x :=
   runSeq_frame ops fs x (fun o ho q hq hqx => hx (List.IsPrefix.trans (hops o ho q hq) hqx))
+
+-- ---------------------------------------------------------------- directory contents
+
+theorem lookup_some_mem (fs : FS) (p : Path) (n : Node) (h : lookup fs p = some n) : (p, n) ∈ fs := by
+  induction fs with
+  | nil => simp [lookup] at h
+  | cons e fs ih =>
+    rw [lookup_cons] at h
+    by_cases he : e.1 = p
+    · rw [if_pos he] at h
+      injection h with h
+      have : e = (p, n) := by rw [← he, ← h]
+      rw [this]; simp
+    · rw [if_neg he] at h
+      exact List.mem_cons_of_mem _ (ih h)
+
+theorem mem_dedup (l : List Comp) (x : Comp) : x ∈ dedup l ↔ x ∈ l := by
+  induction l with
+  | nil => simp [dedup]
+  | cons c cs ih =>
+    simp only [dedup, List.mem_cons, List.mem_filter, decide_eq_true_eq, ih]
+    by_cases h : x = c
+    · simp [h]
+    · simp [h]
+
+theorem dedup_nodup (l : List Comp) : (dedup l).Nodup := by
+  induction l with
+  | nil => simp [dedup]
+  | cons c cs ih =>
+    simp only [dedup, List.nodup_cons, List.mem_filter, decide_eq_true_eq]
+    exact ⟨fun h => h.2 rfl, ih.sublist List.filter_sublist⟩
+
+theorem mem_rawNames (fs : FS) (d : Path) (n : Comp) : n ∈ rawNames fs d ↔ ∃ nd, (d ++ [n], nd) ∈ fs := by
+  unfold rawNames
+  rw [List.mem_filterMap]
+  constructor
+  · rintro ⟨e, he, hc⟩
+    split at hc
+    · rename_i hcond
+      obtain ⟨hlen, r, hr⟩ := hcond
+      injection hc with hc
+      have hr1 : r.length = 1 := by
+        have := congrArg List.length hr; simp at this; omega
+      match r, hr1 with
+      | [z], _ =>
+        refine ⟨e.2, ?_⟩
+        have : e.1 = d ++ [n] := by rw [← hr]; rw [← hr] at hc; simp at hc; rw [hc]
+        rw [← this]; exact he
+    · cases hc
+  · rintro ⟨nd, h⟩
+    refine ⟨(d ++ [n], nd), h, ?_⟩
+    simp
+
+/-- A directory entry is exactly a path one component below `d` that `lookup` finds. -/
+theorem mem_children (fs : FS) (d : Path) (n : Comp) (nd : Node) :
+    (n, nd) ∈ children fs d ↔ lookup fs (d ++ [n]) = some nd := by
+  unfold children
+  rw [List.mem_filterMap]
+  constructor
+  · rintro ⟨m, _, hm⟩
+    cases hl : lookup fs (d ++ [m]) with
+    | none => simp [hl] at hm
+    | some x =>
+      simp only [hl, Option.map_some, Option.some.injEq, Prod.mk.injEq] at hm
+      obtain ⟨rfl, rfl⟩ := hm
+      exact hl
+  · intro h
+    refine ⟨n, ?_, by simp [h]⟩
+    rw [mem_dedup, mem_rawNames]
+    exact ⟨nd, lookup_some_mem fs _ nd h⟩
+
+/-- Every name appears once. -/
+theorem children_names_nodup (fs : FS) (d : Path) : ((children fs d).map (·.1)).Nodup := by
+  unfold children
+  have : ((dedup (rawNames fs d)).filterMap (fun n => (lookup fs (d ++ [n])).map (fun nd => (n, nd)))).map (·.1) =
+      (dedup (rawNames fs d)).filter (fun n => (lookup fs (d ++ [n])).isSome) := by
+    induction dedup (rawNames fs d) with
+    | nil => rfl
+    | cons c cs ih =>
+      cases hl : lookup fs (d ++ [c]) with
+      | none => simp [hl, ih]
+      | some x => simp [hl, ih]
+  rw [this]
+  exact (dedup_nodup _).sublist List.filter_sublist
 
 -- ---------------------------------------------------------------- symlink targets stay inside
 
